@@ -834,21 +834,73 @@ func (in *Interp) apply(x *ast.CallExpr, callee string, obj types.Object, recv V
 			if _, ok := args[0].(Nil); ok {
 				return one(st, Int(0))
 			}
+			if ap, ok := args[0].(Appended); ok && ap.Base == nil {
+				hasSpread := false
+				for _, e := range ap.Elems {
+					if _, isS := e.(Spread); isS {
+						hasSpread = true
+					}
+				}
+				if !hasSpread {
+					return one(st, Int(int64(len(ap.Elems))))
+				}
+			}
 			return one(st, Sym{Name: b.Name() + "(" + args[0].Canon() + ")"})
 		case "append":
-			if l, ok := args[0].(List); ok {
-				return one(st, List{append(append([]Val(nil), l.Elems...), args[1:]...)})
+			var add []Val
+			for i, a := range args[1:] {
+				if x.Ellipsis.IsValid() && i == len(args)-2 {
+					switch sv := a.(type) {
+					case List:
+						add = append(add, sv.Elems...)
+					case Nil:
+					case Appended:
+						if sv.Base == nil {
+							add = append(add, sv.Elems...)
+						} else {
+							add = append(add, Spread{a})
+						}
+					default:
+						add = append(add, Spread{a})
+					}
+					continue
+				}
+				add = append(add, a)
 			}
-			if _, ok := args[0].(Nil); ok && (len(x.Args) < 2 || !x.Ellipsis.IsValid()) {
-				return one(st, List{append([]Val(nil), args[1:]...)})
+			switch base := args[0].(type) {
+			case List:
+				return one(st, List{append(append([]Val(nil), base.Elems...), add...)})
+			case Nil:
+				allKnown := true
+				for _, a := range add {
+					if _, isSpread := a.(Spread); isSpread {
+						allKnown = false
+					}
+				}
+				if allKnown {
+					return one(st, List{add})
+				}
+				return one(st, Appended{Base: nil, Elems: add})
+			case Appended:
+				st.Emit("append "+showBase(base.Base), x.Pos(), add...)
+				elems := append([]Val(nil), base.Elems...)
+				for _, a := range add {
+					dup := false
+					for _, e := range elems {
+						if e.Canon() == a.Canon() {
+							dup = true
+						}
+					}
+					if !dup {
+						elems = append(elems, a)
+					}
+				}
+				return one(st, Appended{Base: base.Base, Elems: elems})
 			}
-			st.Emit("append "+args[0].Canon(), x.Pos(), args[1:]...)
-			// appending to an already-appended opaque slice keeps its name, so that loop states repeat
-			if strings.HasPrefix(args[0].Canon(), "append(") {
-				return one(st, args[0])
-			}
-			return one(st, Sym{Name: "append(" + args[0].Canon() + ",…)"})
+			st.Emit("append "+args[0].Canon(), x.Pos(), add...)
+			return one(st, Appended{Base: args[0], Elems: add})
 		case "make":
+			st.Emit("make", x.Pos(), args...)
 			return one(st, Sym{Name: fmt.Sprintf("make@%d", x.Pos()), NotNil: true})
 		case "new":
 			return one(st, Sym{Name: fmt.Sprintf("new@%d", x.Pos()), NotNil: true})
@@ -899,6 +951,13 @@ func (in *Interp) apply(x *ast.CallExpr, callee string, obj types.Object, recv V
 		return one(st, Nil{})
 	}
 	return one(st, Sym{Name: name})
+}
+
+func showBase(v Val) string {
+	if v == nil {
+		return "nil"
+	}
+	return v.Canon()
 }
 
 func canonList(vs []Val) string {
